@@ -1,7 +1,7 @@
 #!/bin/bash
 # tools/keep_mutant.sh <out-name> <seeded-dir-name>  : copy a confirmed seeded change into /verif/seeded/
 set -eu
-src=/tmp/mut-out/$1; dst=/verif/seeded/$2
+src=${3:-/tmp/mut-out}/$1; dst=/verif/seeded/$2
 mkdir -p "$dst"
 cp -r "$src"/. "$dst"/
 rm -f "$dst"/confirm_*.log
